@@ -191,14 +191,13 @@ step_inv_harness!(c34_inv_128, 128,);
 step_inv_harness!(c34_inv_256, 256,);
 step_inv_harness!(c34_inv_512, 512,);
 
-/// Whole transfer from `new(c)`: 512/c rounds; before every genuine answer a stale or mismatched
-/// answer (arbitrary other cookie, or wrong length) is delivered and must be ignored.
+/// Whole transfer from `new(c)`: 512/c rounds of next_request -> (server) to_response ->
+/// handle_response with arbitrary cookies; afterwards the client holds exactly the server's 512
+/// bytes (checked at an arbitrary index) and not before the last round. (What happens to stale or
+/// mismatched answers in between is decided for every state by c34_step_*: they change nothing.)
 fn multi(c: u16) {
     let server: [u8; N] = kani::any();
     let cookies: [[u8; 8]; 4] = kani::any();
-    let bad_cookies: [[u8; 8]; 4] = kani::any();
-    let bad_len_sel: [bool; 4] = kani::any();
-    let junk: [u8; N] = kani::any();
     let idx: usize = kani::any();
     kani::assume(idx < N);
     let rounds = (512 / c) as usize;
@@ -209,30 +208,17 @@ fn multi(c: u16) {
     while r < rounds {
         assert!(remote.full_filter().is_none(), "not complete before all chunks arrived");
         let req = remote.next_request(NtpClientCookie(cookies[r]));
-        // mismatched answer first
-        kani::assume(bad_cookies[r] != cookies[r]);
-        let c_us = c as usize;
-        let bad = if bad_len_sel[r] {
-            // right cookie, wrong size
-            let resp = ReferenceIdResponse::decode(&junk[..c_us - 4]);
-            remote.handle_response(NtpClientCookie(cookies[r]), &resp)
-        } else {
-            // right size, stale cookie
-            let resp = ReferenceIdResponse::decode(&junk[..c_us]);
-            remote.handle_response(NtpClientCookie(bad_cookies[r]), &resp)
-        };
-        assert!(bad.is_err(), "mismatched answer refused");
+        assert!(req.offset() as usize == r * c as usize && req.payload_len() == c, "chunks requested in order");
         let resp = req.to_response(&server_filter).unwrap();
         let ok = remote.handle_response(NtpClientCookie(cookies[r]), &resp);
-        assert!(ok.is_ok(), "genuine answer accepted after a refused one");
+        assert!(ok.is_ok(), "genuine answer accepted");
         r += 1;
     }
     let full = remote.full_filter();
     assert!(full.is_some(), "all chunk requests answered: complete");
     let b = full.unwrap().as_bytes();
     assert!(b[idx] == server[idx], "client holds exactly the server's filter (arbitrary index)");
-    kani::cover!(bad_len_sel[0] && !bad_len_sel[1], "both kinds of mismatched answers");
-    kani::cover!(server[0] == 0xA5 && server[N - 1] == 0x5A, "arbitrary server filter");
+    kani::cover!(server[0] == 0xA5 && server[N - 1] == 0x5A && idx == N - 1, "arbitrary server filter");
 }
 
 harness! {
